@@ -497,7 +497,7 @@ Lemma open_file_eq (s : fsys) (v : view) (vi : nat) (x : N) (name : str) (flag p
     if is_not_exist e then
       if negb (has om OpenCreate) then (s, inl (RFail e))
       else match sr_parent r with
-           | None => (s, inl RPanic)
+           | None => (s, inl (RFail e))
            | Some parent =>
                if negb (perm_on h parent (N.lor OpenWrite OpenLookup) (v_user v))
                then (s, inl (RFail EPermDenied))
